@@ -104,6 +104,8 @@ def gen_tree_text(rng, bad_p=0.12):
         text = text[:i] + '?' + text[i:]             # the lexer (producer) fails mid-stream
     if rng.random() < 0.1:
         text = '\n' + text
+    if rng.random() < 0.1:
+        text = text.replace('\n', '\r\n')          # the _NL terminal is /(\\r?\\n[\\t ]*)+/
     return text
 
 
@@ -174,7 +176,10 @@ def gen_python(rng, bad_p=0.1):
             lines.append('   ')
     if need_block:
         lines.append(gen_ws(rng, levels[-1] + (8 if tabs else 2), tabs) + 'pass')
-    return '\n'.join(lines) + '\n'
+    src = '\n'.join(lines) + '\n'
+    if rng.random() < 0.1:
+        src = src.replace('\n', '\r\n')
+    return src
 
 
 ENDINGS = ['full', 'full', 'full', 'full', 'abandon', 'close', 'throw', 'parse']
